@@ -271,7 +271,7 @@ INTERIOR = re.compile(r"\b(Mutex|RwLock|RefCell|Cell|OnceCell|OnceLock|Atomic\w+
                       r"mpsc|watch|Sender|Receiver)\b")
 
 
-def n3(prog, rep):
+def n3(prog, rep, rule="N3"):
     n = 0
     for c in prog.all_calls():
         if is_test_owner(c.body.owner):
@@ -283,17 +283,17 @@ def n3(prog, rep):
             # first generic arg is Self; the rest is the stored type
             stored = g.split(",", 1)[1] if "," in g else g
             key = f"{short_name(c.callee)}<-{c.body.owner}"
-            rep.check(not INTERIOR.search(stored), "N3", key,
+            rep.check(not INTERIOR.search(stored), rule, key,
                       f"ephemeral object-store value has interior mutability / is a shared "
                       f"handle ({stored[:100]}): mutations through it bypass the transaction's "
                       f"StateDelta and survive a failed transaction", c.where(),
                       detail=stored[:80])
-    rep.floor("N3", n, 8, "object_put/object_get call sites")
+    rep.floor(rule, n, 8, "object_put/object_get call sites")
     # fee accumulation: object_put on every success path of add_fee_to_block_fees
     fn = S + "fees::state_ext::StateWriteExt::add_fee_to_block_fees"
     body = prog.main_body(fn)
     puts = [c for c in body.calls if c.matches(r"StateWrite::object_put$")]
-    rep.check(bool(puts) and on_all_success_paths(body, via_blocks=[c.bb for c in puts]), "N3",
+    rep.check(bool(puts) and on_all_success_paths(body, via_blocks=[c.bb for c in puts]), rule,
               "block-fees-restored-by-value",
               "add_fee_to_block_fees has a success path that does not store the updated fee map "
               "into the state it was given", body.describe())
@@ -302,5 +302,5 @@ def n3(prog, rep):
     for o in prog.owners(r"^astria_sequencer::checked_actions::.*::execute$"):
         b = prog.main_body(o)
         sig = " ".join(b.locals[1:b.argc + 1])
-        rep.check("astria_sequencer::app::App" not in sig, "N3", f"no-app-handle:{short_name(o)}:{o[-60:]}",
+        rep.check("astria_sequencer::app::App" not in sig, rule, f"no-app-handle:{short_name(o)}:{o[-60:]}",
                   f"{o} receives the App (side channel around the state delta)", b.describe())
